@@ -125,6 +125,17 @@ impl<'a> IpSlice<'a> {
             let first_byte = unsafe { slice.get_unchecked(0) };
             match first_byte >> 4 {
                 4 => {
+                    // check that at least the base IPv4 header is present
+                    if slice.len() < Ipv4Header::MIN_LEN {
+                        return Err(Len(err::LenError {
+                            required_len: Ipv4Header::MIN_LEN,
+                            len: slice.len(),
+                            len_source: LenSource::Slice,
+                            layer: err::Layer::Ipv4Header,
+                            layer_start_offset: 0,
+                        }));
+                    }
+
                     let ihl = first_byte & 0xf;
 
                     // check that the ihl has at least the length of the base IPv4 header
